@@ -5,6 +5,7 @@ use crate::simnet::{TraceCfg, WorldSpec};
 use serde::{Deserialize, Serialize};
 
 pub mod c01;
+pub mod c03;
 pub mod c06;
 pub mod c08;
 pub mod c10;
@@ -24,7 +25,7 @@ pub fn sim_case(opts: &crate::simnet::gen::GenOpts) -> proptest::strategy::Boxed
 }
 
 pub fn all() -> Vec<PropertyCheck> {
-    vec![c01::check(), c06::check(), c08::check(), c10::check()]
+    vec![c01::check(), c03::check(), c06::check(), c08::check(), c10::check()]
 }
 
 pub fn by_id(id: &str) -> Option<PropertyCheck> {
